@@ -52,15 +52,27 @@ def run_property(prop: str, tier: str, repo: str | None = None, write: bool = Tr
             print(f"ANALYSIS-ERROR property={prop}: no rules registered")
             return 2
         results = []
+        errors: list[str] = []
         for fn in rules:
             if only_rule and not fn.__name__.lower().startswith(only_rule.lower().replace(".", "_")):
                 continue
-            r = fn(ctx)
-            results.append(r)
-            if r.instances < r.min_instances:
-                raise AnalysisError(
-                    f"rule {r.rule} ({r.title}) enumerated {r.instances} instances, below the confirmed minimum {r.min_instances}: an anchor vanished or the enumerator no longer matches the code"
-                )
+            # a rule whose anchor vanished is an analysis error; the remaining rules still run, so that a change which both
+            # removes an anchor and violates another rule is reported as the violation it is
+            try:
+                r = fn(ctx)
+                if r.instances < r.min_instances:
+                    raise AnalysisError(
+                        f"rule {r.rule} ({r.title}) enumerated {r.instances} instances, below the confirmed minimum {r.min_instances}: an anchor vanished or the enumerator no longer matches the code"
+                    )
+                results.append(r)
+            except AnalysisError as e:
+                errors.append(str(e))
+        if errors and not any(r.findings for r in results):
+            for e in errors:
+                print(f"ANALYSIS-ERROR property={prop}: {e}")
+            return 2
+        for e in errors:
+            print(f"ANALYSIS-ERROR property={prop}: {e}")
     except AnalysisError as e:
         print(f"ANALYSIS-ERROR property={prop}: {e}")
         return 2
